@@ -447,7 +447,12 @@ def run_chunkns(spec, res):
                     attrs += f' xsi:type="{"p" if uses_p else "r"}:ext" z="1"'
                 if rng.random() < 0.5:
                     attrs += f' q="{"p" if uses_p else "r"}:zz"'
-                kids = ''.join(f'<v>{"p" if uses_p and rng.random() < 0.7 else "r"}:k{j}</v>' for j in range(rng.choice((0, 0, 1, 2))))
+                kid_list = [f'<v>{"p" if uses_p and rng.random() < 0.7 else "r"}:k{j}</v>' for j in range(rng.choice((0, 0, 1, 2)))]
+                if kid_list and rng.random() < 0.5:
+                    # the last child opens a namespace scope of its own: two scopes close back to back, and the
+                    # declarations of the chunk must not stay in scope for the following chunks
+                    kid_list[-1] = kid_list[-1].replace('<v>', '<v xmlns:c="urn:vk:c2">' if rng.random() < 0.6 else '<v xmlns:p="urn:vk:cn">', 1)
+                kids = ''.join(kid_list)
                 items.append(f'<item{attrs}>{kids}</item>' if kids else f'<item{attrs}/>')
             text = (f'<r:root xmlns:r="urn:vk:cn" xmlns:xsi="{XSI}"' + (' xmlns:p="urn:vk:cn"' if bound_on_root else '') +
                     (' q="r:top"' if rng.random() < 0.3 else '') + '>' + ''.join(items) + '</r:root>')
